@@ -351,7 +351,10 @@ def rw_program(rng):
                     out.append(f"{pad}{v} = {v} {rng.choice(['+', '-', '^', '*'])} {_iexp(rng, locs_i, loopvars, 1)}")
             elif k == "aug":
                 v = rng.choice(locs_i)
-                out.append(f"{pad}{v} {rng.choice(['+=', '-=', '^=', '|=', '&=', '*=', '<<=', '>>='])} {rng.choice(locs_i + loopvars + ['1', '2'])}")
+                op = rng.choice(['+=', '-=', '^=', '|=', '&=', '*=', '<<=', '>>='])
+                # shift amounts stay constants: `x <<= x` inside a loop makes numbers of 10^8 bits
+                rhs = rng.choice(['1', '2']) if op in ('<<=', '>>=') else rng.choice(locs_i + loopvars + ['1', '2'])
+                out.append(f"{pad}{v} {op} {rhs}")
             elif k == "swap":
                 if len(locs_b) >= 2 and rng.random() < 0.5:
                     u, v = rng.sample(locs_b, 2)
@@ -806,10 +809,10 @@ def have_guard():
     return "Definition chk_guard" in open(os.path.join(C.THEORIES, "Chk_A2A.v")).read()
 
 
-def build_files(results, with_guard):
+def build_files(results, with_guard, per_file=PER_FILE_MAX):
     ok = [r for r in results if r["status"] == "ok"]
     ok.sort(key=lambda r: -r["size"])
-    nfiles = max(min(MAX_FILES, len(ok)), (len(ok) + PER_FILE_MAX - 1) // PER_FILE_MAX, 1)
+    nfiles = max(min(MAX_FILES, len(ok)), (len(ok) + per_file - 1) // per_file, 1)
     bins = [[] for _ in range(nfiles)]
     for i, r in enumerate(ok):
         bins[i % nfiles].append(r)
@@ -899,7 +902,7 @@ def collect(tier, seed, jobs=16, only=None, progs=None):
             if r["status"] in ("harness-error", "impl-timeout")]
     ok_vo, log = ensure_vo()
     with_guard = ok_vo and have_guard()
-    files = build_files(results, with_guard)
+    files = build_files(results, with_guard, PER_FILE_MAX if tier == "quick" else 200)
     t1 = time.time()
     mismatches, coq_err, impl_failures, evaluator_vs_cpython = [], [], [], []
     declined, checked = set(), set()
